@@ -480,3 +480,82 @@ def normalize_suppress(P):
         if n_sites[0] != before:
             f.node.body = body
     return n_sites[0]
+
+
+def normalize_yield_from_genexp(P):
+    """`yield from (e for t in it if c)` is `for t in it: if c: yield e`."""
+    import copy
+    n_sites = [0]
+
+    def conv(s_):
+        if isinstance(s_, ast.Expr) and isinstance(s_.value, ast.YieldFrom) and isinstance(s_.value.value, ast.Call):
+            # yield from map(f, xs)  /  yield from map(itemgetter(k), xs)
+            c = s_.value.value
+            if isinstance(c.func, ast.Name) and c.func.id == "map" and len(c.args) == 2 and not c.keywords:
+                fn, xs = c.args
+                v = ast.Name(id="_mv", ctx=ast.Load())
+                if isinstance(fn, ast.Call) and ast.unparse(fn.func) in ("itemgetter", "operator.itemgetter") and len(fn.args) == 1 and isinstance(fn.args[0], ast.Constant):
+                    elt = ast.Subscript(value=v, slice=copy.deepcopy(fn.args[0]), ctx=ast.Load())
+                elif isinstance(fn, (ast.Name, ast.Attribute)):
+                    elt = ast.Call(func=copy.deepcopy(fn), args=[v], keywords=[])
+                else:
+                    return None
+                new = ast.For(target=ast.Name(id="_mv", ctx=ast.Store()), iter=copy.deepcopy(xs), body=[ast.Expr(value=ast.Yield(value=elt))], orelse=[])
+                ast.copy_location(new, s_)
+                for x in ast.walk(new):
+                    if not hasattr(x, "lineno"):
+                        ast.copy_location(x, s_)
+                n_sites[0] += 1
+                return ast.fix_missing_locations(new)
+        if not (isinstance(s_, ast.Expr) and isinstance(s_.value, ast.YieldFrom) and isinstance(s_.value.value, ast.GeneratorExp)):
+            return None
+        g = s_.value.value
+        if any(c.is_async for c in g.generators):
+            return None
+        inner = [ast.Expr(value=ast.Yield(value=copy.deepcopy(g.elt)))]
+        for comp in reversed(g.generators):
+            for cond in reversed(comp.ifs):
+                inner = [ast.If(test=copy.deepcopy(cond), body=inner, orelse=[])]
+            tgt = copy.deepcopy(comp.target)
+            for x in ast.walk(tgt):
+                if isinstance(x, (ast.Name, ast.Tuple, ast.List, ast.Starred)):
+                    x.ctx = ast.Store()
+            inner = [ast.For(target=tgt, iter=copy.deepcopy(comp.iter), body=inner, orelse=[])]
+        new = inner[0]
+        ast.copy_location(new, s_)
+        for x in ast.walk(new):
+            if not hasattr(x, "lineno"):
+                ast.copy_location(x, s_)
+        n_sites[0] += 1
+        return ast.fix_missing_locations(new)
+
+    def rewrite(block):
+        res = []
+        for s_ in block:
+            for fld in ("body", "orelse", "finalbody"):
+                sub = getattr(s_, fld, None)
+                if isinstance(sub, list) and sub and isinstance(sub[0], ast.stmt):
+                    setattr(s_, fld, rewrite(sub))
+            if isinstance(s_, ast.Try):
+                for h in s_.handlers:
+                    h.body = rewrite(h.body)
+            new = conv(s_)
+            res.append(new if new is not None else s_)
+        return res
+
+    for f in list(P.funcs.values()):
+        if f.module.is_tools or f.parent is not None or not f.is_generator:
+            continue
+        if not any(isinstance(n, ast.YieldFrom) and isinstance(n.value, (ast.GeneratorExp, ast.Call)) for n in ast.walk(f.node)):
+            continue
+        taken = {n.id for n in ast.walk(f.node) if isinstance(n, ast.Name) and not any(n is x for ge in ast.walk(f.node) if isinstance(ge, ast.GeneratorExp) for x in ast.walk(ge))}
+        taken |= set(f.all_params())
+        # comprehension variables must not collide with the function's own names
+        gvars = {x.id for ge in ast.walk(f.node) if isinstance(ge, ast.GeneratorExp) for c in ge.generators for x in ast.walk(c.target) if isinstance(x, ast.Name)}
+        if gvars & (taken - {"_"}):
+            continue
+        before = n_sites[0]
+        body = rewrite(f.node.body)
+        if n_sites[0] != before:
+            f.node.body = body
+    return n_sites[0]
